@@ -57,8 +57,21 @@ def load_prop(prop_id: str) -> Any:
     return importlib.import_module("sim.props." + prop_id.lower())
 
 
+def make_plan(prop: Any, tier: str, seed: int, i: int) -> dict:
+    """The property's plan plus the environment knobs every property shares (swarm style).
+
+    debug_log: the application configured DEBUG logging for puresnmp (one plan in eight): all the guarded diagnostic
+    code paths (hexdumps, LOG.debug arguments) run; no property may depend on the logging configuration."""
+    plan = prop.plan_for(tier, seed, i)
+    if "debug_log" not in plan:
+        plan["debug_log"] = run_seed(seed, prop.ID, tier + ":env", i) % 8 == 0
+    return plan
+
+
 def safe_execute(prop: Any, plan: dict) -> dict:
     """Execute one plan; harness exceptions are classified apart from violations."""
+    from . import env as _env
+    _env.set_debug_logging(bool(plan.get("debug_log")))
     try:
         out = prop.execute(plan)
     except Exception as exc:  # harness bug, not a verdict
@@ -68,6 +81,7 @@ def safe_execute(prop: Any, plan: dict) -> dict:
             "sim_s": 0.0, "exchanges": 0}
     out.setdefault("triggers", [])
     out.setdefault("counters", {})
+    out["counters"]["probe_debug_logging_on"] = int(bool(plan.get("debug_log")))
     out.setdefault("sim_s", 0.0)
     out.setdefault("exchanges", 0)
     out.setdefault("shape", "")
@@ -83,7 +97,7 @@ def _worker(args: Tuple[str, str, int, List[int], int]) -> List[Tuple[int, dict]
         prop = load_prop(prop_id)
         out = []
         for i in indices:
-            plan = prop.plan_for(tier, seed, i)
+            plan = make_plan(prop, tier, seed, i)
             o = safe_execute(prop, plan)
             o.pop("trace", None)
             out.append((i, o))
@@ -319,7 +333,7 @@ def run_check(prop_id: str, tier: str, seed: int, jobs: int, budget_s: Optional[
     # -- determinism spot check (same seed twice, same process) ----------------------------
     det_checked = 0
     for i in sorted(results)[:int(os.environ.get("VERIF_DET_SAMPLE", str(getattr(prop, "DET_SAMPLE", 12))))]:
-        o2 = safe_execute(prop, prop.plan_for(tier, seed, i))
+        o2 = safe_execute(prop, make_plan(prop, tier, seed, i))
         det_checked += 1
         if o2.get("digest") != results[i].get("digest"):
             harness_errors.append("non-deterministic run %d: digest %s vs %s" % (
@@ -340,7 +354,7 @@ def run_check(prop_id: str, tier: str, seed: int, jobs: int, budget_s: Optional[
                 for t in trig:
                     kf_hits[t] = kf_hits.get(t, 0) + 1
             continue
-        plan = prop.plan_for(tier, seed, i)
+        plan = make_plan(prop, tier, seed, i)
         full = safe_execute(prop, plan)
         if not full.get("violation"):
             harness_errors.append("run %d: violation did not reproduce in the parent process" % i)
@@ -422,7 +436,7 @@ def write_evidence(prop: Any, prop_id: str, tier: str, seed: int, results: Dict[
     samples = []
     for i in sorted(results)[:3]:
         try:
-            plan = prop.plan_for(tier, seed, i)
+            plan = make_plan(prop, tier, seed, i)
             o = results[i]
             samples.append({"index": i, "run_seed": run_seed(seed, prop_id, tier, i),
                             "plan": json.loads(jsonx.dumps(_trim(plan))),
